@@ -66,6 +66,25 @@ Theorem C18_plog_assert : forall nhi vers flag,
 Proof. exact send_report_none_iff. Qed.
 Print Assumptions C18_plog_assert.
 
+(* fail-over (node.go tries its Drummer servers one after the other with the SAME NodeHostInfo): every server contacted -
+   the i-th one, as long as no earlier one accepted - receives the report built from the unchanged local information and from
+   its OWN advertised versions, so all the clauses above hold for it whatever was sent to the servers tried before; after the
+   first server that accepted nobody else is contacted, and when nobody accepts all are tried *)
+Theorem C18_failover_truthful : forall local flag servers i vers m,
+  nth_error servers i = Some (vers, m) ->
+  no_accept_before servers i ->
+  nth_error (report_round local flag servers) i =
+  Some (match m with MFailIndex => None | _ => build_report local vers flag end).
+Proof. exact report_round_nth. Qed.
+Print Assumptions C18_failover_truthful.
+
+Theorem C18_failover_extent : forall local flag servers,
+  (forall i vers, nth_error servers i = Some (vers, MAccept) -> no_accept_before servers i ->
+     length (report_round local flag servers) = S i) /\
+  ((forall v m, In (v, m) servers -> m <> MAccept) -> length (report_round local flag servers) = length servers).
+Proof. intros local flag servers. split; [intros i vers; apply report_round_stops|apply report_round_all]. Qed.
+Print Assumptions C18_failover_extent.
+
 (** * Executed at most once *)
 
 (* over any sequence of deliveries (Recv) and HandleMasterRequests (Exec): the batches handed to the
@@ -371,4 +390,13 @@ Example ex_restore_current_members :
   let h := [(1, fst (ref_stop (fst (ref_start sh_empty (mkStart Regular [(1, 100)] false 1 1 ex_cfg true true))) 1 1))] in
   exec_calls h [mkReq TCreate 1 [1; 2] 0 1 false true 0 [1; 2] [100; 101] ex_cfg] =
   [(1, [EStart (mkStart Regular [] false 1 1 ex_cfg true true) SOk], Done)].
+Proof. vm_compute. reflexivity. Qed.
+
+(* fail-over: the first server knows shard 1 at the local version and fails the report call, the second one does not know the
+   shard: it gets the full membership *)
+Example ex_failover :
+  map (option_map (fun rp => map (fun r => (rs_incomplete r, rs_members r)) (rp_shards rp)))
+      (report_round (mkNHI 100 200 [mkSI 1 1 1 [(1, 100); (2, 101)] 3 false] []) false
+                    [([(1, 3)], MFailReport); ([], MAccept); ([(1, 9)], MAccept)]) =
+  [Some [(true, [])]; Some [(false, [(1, 100); (2, 101)])]].
 Proof. vm_compute. reflexivity. Qed.
